@@ -2,7 +2,7 @@
 import enums
 from common import Result
 from e3 import Config, Subj
-from e3check import explore
+from e3check import compare_transcripts, explore
 from enums import ALL_REPRS, REPRS, family_F, family_H, family_L
 
 QUICK_L_REPRS = ["i8", "u8", "i16", "u64"]
@@ -123,20 +123,8 @@ def c04(tier):
         subs = mk_subjects(decls, [("_" + s, c) for s, c in cfgs])
     merged = explore(res, "%s/c04" % tier, subs, phases=["from_str"])
     # with duplicate names the same variant must be chosen in every mode: compare transcript hashes per enum
-    groups = {}
-    for s in subs:
-        h = merged["stats"].get(s.sid, {}).get("hashes", {}).get("from_str")
-        if h:
-            groups.setdefault(s.sid.split("_")[0], {}).setdefault(h, []).append(s)
-    for g, hs in groups.items():
-        if len(hs) > 1:
-            reps = [v[0] for v in hs.values()]
-            res.violation({"kind": "mode-dependent-from_str", "configs": [r.cfg.describe() for r in reps][:3],
-                           "repr": reps[0].decl.repr,
-                           "variants": [[x.ident, x.value, x.rename] for x in reps[0].decl.variants][:16]},
-                          {"subjects": [r.describe() for r in reps][:3]},
-                          {"repro.rs": reps[0].standalone() + "fn main() {}\n"})
-    res.extra["transcript_groups_compared"] = len(groups)
+    compare_transcripts(res, merged, subs, lambda s: s.sid.split("_")[0], "mode-dependent-from_str",
+                        items=("from_str", "FromStr::from_str"))
     finish_common(res, decls, subs,
                   "states = (enum, string) pairs: every name, every single-edit neighbour (delete/insert/substitute/case flip), "
                   "padding, identifiers of renamed variants, pair concatenations (n<=4), hostile strings; non-trivial = strings "
